@@ -15,6 +15,8 @@
 package ggql
 
 import (
+	"fmt"
+	"math"
 	"strconv"
 )
 
@@ -33,17 +35,26 @@ func newFloatScalar() Type {
 	}
 }
 
+// float32FromFloat64 converts to a float32 or returns an error if the value is
+// not a finite number or is out of range for a float32.
+func float32FromFloat64(f float64) (interface{}, error) {
+	f32 := float32(f)
+	if math.IsNaN(f) || math.IsInf(float64(f32), 0) {
+		return nil, fmt.Errorf("%w %g into a Float, not a finite number in range", ErrCoerce, f)
+	}
+	return f32, nil
+}
+
 // CoerceIn coerces an input value into the expected input type if possible
 // otherwise an error is returned.
 func (*floatScalar) CoerceIn(v interface{}) (interface{}, error) {
 	var err error
 	switch tv := v.(type) {
 	case nil:
-		// remains nil
 	case float64:
-		v = float32(tv)
+		v, err = float32FromFloat64(tv)
 	case float32:
-		// ok as is
+		v, err = float32FromFloat64(float64(tv))
 	case int32:
 		v = float32(tv)
 	case int64:
@@ -60,11 +71,10 @@ func (t *floatScalar) CoerceOut(v interface{}) (interface{}, error) {
 	var err error
 	switch tv := v.(type) {
 	case nil:
-		// remains nil
 	case float32:
-		// ok as is
+		v, err = float32FromFloat64(float64(tv))
 	case float64:
-		v = float32(tv)
+		v, err = float32FromFloat64(tv)
 	case int:
 		v = float32(tv)
 	case int8:
@@ -88,7 +98,7 @@ func (t *floatScalar) CoerceOut(v interface{}) (interface{}, error) {
 	case string:
 		var f float64
 		if f, err = strconv.ParseFloat(tv, 64); err == nil {
-			v = float32(f)
+			v, err = float32FromFloat64(f)
 		}
 	default:
 		v = nil
